@@ -22,7 +22,7 @@ theorem fit_cls (v : Variant) (ops : DataOps D V) (F : Fitters C V O P D) (s : U
     (fit v ops F s x).cls = s.cls ∧ (fit v ops F s x).kind = s.kind ∧ (fit v ops F s x).ctor = s.ctor ∧
     (fit v ops F s x).fitted = true := by
   unfold fit
-  cases v <;> cases h : ops.const? x <;> simp
+  cases h : ops.const? x <;> simp
 
 theorem fitAll_cls (v : Variant) (ops : DataOps D V) (F : Fitters C V O P D) (xs : List D) :
     ∀ s : UState C V O P, (fitAll v ops F s xs).cls = s.cls ∧ (fitAll v ops F s xs).kind = s.kind ∧
@@ -47,7 +47,9 @@ theorem fit_repaired_congr (ops : DataOps D V) (F : Fitters C V O P D) (s s' : U
     (hc : s.cls = s'.cls) (hk : s.kind = s'.kind) (ho : s.ctor = s'.ctor) :
     fit .repaired ops F s x = fit .repaired ops F s' x := by
   unfold fit
-  simp only [hc, hk, ho]
+  simp only [hc, hk, ho, Variant.repaired_keepOverride, Variant.repaired_rememberBounds,
+    Variant.repaired_cacheSize]
+  rfl
 
 /-! ## AsFound: what a history leaves on the instance -/
 
@@ -246,7 +248,8 @@ theorem obs_fit_of_safe (ops : DataOps D V) (F : Fitters C V O P D) (c : C) (k :
           · exact absurd p1 (t y hy)
           · exact absurd hx t
     unfold fit obs toDict checkFit UState.fresh
-    simp only [hx, hc, hk, hov', hct]
+    simp only [hx, hc, hk, hov', hct, Variant.asFound_keepOverride, Variant.asFound_rememberBounds,
+      Variant.asFound_cacheSize, if_true, ite_self]
     rw [hopts]
 
 /-! ## closed refutation of re-fit purity for the code as found -/
@@ -276,8 +279,19 @@ theorem construct_ok (ci : ClassInfo) (a : Args Val) (o : Obj Val St) (h : const
     subst h
     exact ⟨rfl, rfl, rfl, rfl, rfl⟩
 
-theorem bindArgs_none (params : List String) : bindArgs (Val := Val) params [] Args.none = .ok [] := by
-  simp [bindArgs, Args.none]
+theorem bindArgs_none_ok (params required : List String) (b : List (String × Val))
+    (h : bindArgs params required Args.none = .ok b) : b = [] := by
+  unfold bindArgs at h
+  simp only [Args.none, List.length_nil, List.zip_nil_right, List.any_nil, List.map_nil, List.append_nil] at h
+  split at h
+  · cases h
+  · split at h
+    · cases h
+    · split at h
+      · cases h
+      · split at h
+        · cases h
+        · injection h with h; exact h.symm
 
 end
 end CopVerif.Model.Lifecycle
